@@ -90,6 +90,7 @@ func checkC05(w *World, r *Report) {
 	checkNarrowBounds(w, r)
 	checkLookaround(w, r)
 	checkScannerProgress(w, r)
+	checkCountersAdvance(w, r)
 	checkOffsetProvenance(w, r, reach)
 
 	// R05.7
